@@ -449,7 +449,9 @@ def receiver_access_programs():
     recv = [('plain', 'list[int]', 'int', '[a, 2, 3]', 'r'), ('optional', 'list[int] | None', 'int', '[a, 2, 3]', 'r'), ('alias', 'IntList', 'int', '[a, 2, 3]', 'r'),
             ('plain-obj', 'list[Row]', 'Row', '[Row(a), Row(2)]', 'r'), ('optional-obj', 'list[Row] | None', 'Row', '[Row(a), Row(2)]', 'r'), ('alias-obj', 'RowList', 'Row', '[Row(a), Row(2)]', 'r'),
             ('attr', 'Holder', 'int', 'Holder(a)', 'r.items'), ('attr-obj', 'Holder', 'Row', 'Holder(a)', 'r.rows'), ('nested', 'list[list[int]]', 'int', '[[a, 2, 3], [4, 5]]', 'r[0]'),
-            ('optional-float', 'list[float] | None', 'float', '[1.5, 2.5, 3.5]', 'r')]
+            ('optional-float', 'list[float] | None', 'float', '[1.5, 2.5, 3.5]', 'r'),
+            # the other spelling of an optional: None first
+            ('none-first', 'None | list[int]', 'int', '[a, 2, 3]', 'r'), ('none-first-obj', 'None | list[Row]', 'Row', '[Row(a), Row(2)]', 'r')]
     drecv = [('plain', 'dict[str, int]', "{'k': a}", 'r'), ('optional', 'dict[str, int] | None', "{'k': a}", 'r'), ('alias', 'StrIntDict', "{'k': a}", 'r'), ('attr', 'Holder', 'Holder(a)', 'r.table')]
     fns = []
 
@@ -465,6 +467,10 @@ def receiver_access_programs():
     for rname, ptype, arg, rexpr in drecv:
         for aname, ret, body in dict_access:
             add(f'dict-{rname}:{aname}', ptype, ret, body.format(r=rexpr), arg)
+    # an optional object in both spellings: attribute and method access through it
+    for rname, ptype in (('obj-optional', 'Row | None'), ('obj-none-first', 'None | Row')):
+        add(f'{rname}:attr', ptype, 'int', 'v = r.n\nreturn v', 'Row(a)')
+        add(f'{rname}:local', ptype, 'int', 'x = r\nw = x.n\nreturn w', 'Row(a)')
     per = 40
     for i in range(0, len(fns), per):
         yield pyprog.Program(f'recv{i // per}', RECV_PRELUDE, fns[i:i + per], layer='recv')
